@@ -2,7 +2,7 @@
    Only statements; each is closed by `exact` of a lemma proved elsewhere. *)
 From Coq Require Import Reals ZArith List.
 From Coquelicot Require Import Hierarchy Derive.
-From PV Require Import Num NumR Model_core Model_minerals Proofs_core Proofs_total Inst_core Proofs_flow Proofs_path Proofs_path2.
+From PV Require Import Num NumR Model_core Model_minerals Proofs_core Proofs_total Inst_core Proofs_flow Proofs_path Proofs_path2 Model_blocks Proofs_blocks Proofs_blocks_sum.
 From PV.gen Require Import Gen_core.
 Import ListNotations.
 Open Scope R_scope.
@@ -136,3 +136,16 @@ Example C03_solution_nonvacuous :
   (forall t, exists out, @rhs NumR 4 0 0 2 [0%Z] [1] (repeat 0 9) 0 [] 1.5 3.5 30 125 (ylist 2 (fun j => y j t)) = Ok out) /\
   (forall r r', (r < 3)%nat -> (r' < 3)%nat -> gram (grainA y 1) r r' 0 = if Nat.eqb r r' then 1 else 0).
 Proof. exact solution_hyps_nonvacuous_proof. Qed.
+
+(* ---- blocked summation of the mean strain energy: any number of grains, any block size (seeded changes C03d, C14f) ----
+   the volume-weighted mean energy  sum_g f_g E_g  accumulated as partial sums over consecutive blocks of ANY positive size (the
+   shorter tail block included) is the mean energy of the model, so every statement above holds of such an implementation ... *)
+Theorem C03_mean_energy_blocked_any_size : forall (fs es : list R) (b : nat), (0 < b)%nat ->
+  bsum (map bsum (chunks b (map2 Rmult fs es))) = @sumf NumR (map2 Rmult fs es).
+Proof. intros fs es b Hb. rewrite (sum_blocked b _ Hb). symmetry. exact (sumf_R _). Qed.
+
+(* ... whereas summing only the n / b full blocks misses exactly the energy-weighted volume of the tail grains *)
+Theorem C03_mean_energy_floor_blocks_defect : forall (fs es : list R) (b : nat), (0 < b)%nat ->
+  @sumf NumR (map2 Rmult fs es) - bsum (map bsum (full_blocks b (map2 Rmult fs es))) =
+  bsum (skipn (b * (length (map2 Rmult fs es) / b)) (map2 Rmult fs es)).
+Proof. intros fs es b Hb. rewrite <- (sum_floor_blocks_defect b _ Hb). f_equal. exact (sumf_R _). Qed.
